@@ -19,11 +19,11 @@ reg("C08", "exploration", "model-based history monitor: every live token and bui
     "Block builders are built once and appended to the token they were created from.",
     "DESIGN.md 3/C08")
 reg("C16", "exploration", "model + reference key selection, bounded-exhaustive over ids x histories x key maps x defaults",
-    "All 6 identifiers x all legal derivation histories up to length 4 x 27 lookups per token are executed; the identifier of every derived token and the outcome of every lookup are compared with a reference selection function.",
+    "All 6 identifiers x all legal derivation histories up to length 4 x 27 lookups per token are executed; the identifier of every derived token and the outcome of every lookup are compared with a reference selection function; one key source value is also reused across tokens with different identifiers.",
     "ed25519 signatures by another key do not verify.",
     "DESIGN.md 3/C16")
 reg("C20", "fault_enumeration", "fault-injecting io.Reader, every failure point x error kind x delivery pattern; independent chain verifier on returned tokens",
-    "Exhaustive enumeration (2316 cases) of failure points 0..31, three error kinds, two timings and three delivery patterns for all four operations that draw randomness, plus controls.",
+    "Exhaustive enumeration (3474 cases) of failure points 0..31, three error kinds, two timings and three delivery patterns for all four operations that draw randomness, plus both Appends again with a source that replays the parent's own stream (failure points 32..63), plus controls.",
     "GenerateKey draws exactly 32 bytes with io.ReadFull (pinned toolchain).",
     "DESIGN.md 3/C20")
 reg("C01", "fault_enumeration", "mutation catalogue decided by an independent chain verifier (R3); run.iter hook shows no Datalog before rejection",
@@ -35,7 +35,7 @@ reg("C10", "exploration", "panic monitor + process-exit journal over isolated wo
     "32-byte keys; address space capped.",
     "DESIGN.md 3/C10")
 reg("C02", "exploration", "relational monitor over (parent, attenuated child) pairs with hostile appended blocks (builder API and raw R3-written blocks signed with the token's own secret)",
-    "For every pair the same authorizer content is run on the parent and on the child (first and second Authorize); a child accepted while its parent is refused is a violation. Appended blocks state and derive exactly what the policies and checks ask for, and include wire-level shapes the builder cannot produce.",
+    "For every pair the same authorizer content is run on the parent and on the child (first and second Authorize, and Authorize after Query on the same authorizer); a child accepted while its parent is refused is a violation. Blocks that hit a deterministic run limit are followed by harmless ones. Appended blocks state and derive exactly what the policies and checks ask for, and include wire-level shapes the builder cannot produce.",
     "Large limits; parent LIMIT is inconclusive.",
     "DESIGN.md 3/C02")
 reg("C03", "exploration", "relational monitor (with vs without a check-free block at every position; class + probe answers) + leak sensitivity measured with reference authorizer R5",
